@@ -358,6 +358,13 @@ struct MultiMap
             dens[j] = static_cast<T>(d);
         }
 
+        // some maps have points at which one channel's density is infinite (an integrable
+        // singularity hit exactly): the weight is then exactly zero and the evaluation counts as zero
+        if (cmap->singular && !wpoison && (mix2(c.sum_u, 31) % 16) == 0 && !enabled.empty())
+        {
+            dens[enabled[mix2(c.sum_u, 32) % enabled.size()]] = std::numeric_limits<T>::infinity();
+        }
+
         if (wpoison && how == 1) jac = std::numeric_limits<T>::infinity();
         if (wpoison && how == 2) jac = std::numeric_limits<T>::quiet_NaN();
 
